@@ -240,7 +240,7 @@ PROPERTY = {
         "epsilon within 1e-9 (relative) of beta admits both decisions",
     ],
     "subchecks": [
-        SubCheck("history", check_history, strategy=strat_history, nontrivial=lambda L: "nontrivial" in L, quick=600, thorough=10000, shards_quick=16, describe=_desc),
-        SubCheck("axioms", check_axioms, strategy=strat_axioms, nontrivial=lambda L: "symmetry-checked" in L, quick=400, thorough=8000, shards_quick=4),
+        SubCheck("history", check_history, strategy=strat_history, nontrivial=lambda L: "nontrivial" in L, quick=600, thorough=30000, shards_quick=16, describe=_desc),
+        SubCheck("axioms", check_axioms, strategy=strat_axioms, nontrivial=lambda L: "symmetry-checked" in L, quick=400, thorough=24000, shards_quick=4),
     ],
 }
